@@ -131,3 +131,58 @@ func TestRegressC05(t *testing.T) {
 		{name: "F19-loser-completes-winners-notify-task", run: scenF19, props: []string{"C05", "C08"}},
 	})
 }
+
+// F20: the lease sweep reads an expired claimed task; the holder's heartbeat is committed between the sweep's read
+// and its (state, counter)-guarded write; the write resets the task although the stored lease has been renewed.
+func scenF20(s *Sim) {
+	// a task claimed at creation, lease 1000 ms
+	s.Submit(&t_api.Request{Kind: t_api.CreatePromiseAndTask, CreatePromiseAndTask: &t_api.CreatePromiseAndTaskRequest{
+		Promise: &t_api.CreatePromiseRequest{Id: "p", Timeout: Base + 60000, Tags: map[string]string{"resonate:invoke": "poll://g/w"}},
+		Task:    &t_api.CreateTaskRequest{PromiseId: "p", ProcessId: "w", Ttl: 1000, Timeout: Base + 60000}}})
+	s.ticks(4)
+	// the lease has just run out; sweep and heartbeat start in the same tick: the flush executes the sweep's read,
+	// then the heartbeat; the sweep's write follows one tick later
+	s.Advance(1000)
+	s.Submit(&t_api.Request{Kind: t_api.HeartbeatTasks, HeartbeatTasks: &t_api.HeartbeatTasksRequest{ProcessId: "w"}})
+	s.ticks(6)
+}
+
+// TestRegressC02 replays the listed finding of C02's background-step part on a deterministic schedule.
+func TestRegressC02(t *testing.T) {
+	dir := core.Scratch("verif-regress-")
+	defer os.RemoveAll(dir)
+	known := core.KnownKeys()
+	s := New(D{}, BigConfig(), Profile{Bg: []string{"TimeoutTasks"}}, dir)
+	defer s.Close()
+	scenF20(s)
+	s.Drain(40)
+	runners := map[string]*BgRunner{}
+	defer func() {
+		for _, q := range runners {
+			q.Close()
+		}
+	}()
+	vs, _, _ := explainBg(s, func(name string) *BgRunner {
+		if runners[name] == nil {
+			runners[name] = NewBgRunner(s.Cfg, name, dir)
+		}
+		return runners[name]
+	})
+	seen := false
+	for _, v := range vs {
+		if v.Key != "" && known[v.Key] {
+			PrintKnown(v.Prop, v.Key, v.Msg)
+			seen = true
+			continue
+		}
+		dump := s.TraceDump()
+		dump["violation"] = v.String()
+		core.SaveFailure("regress-F20", dump)
+		t.Errorf("scenario F20: VIOLATION %s", v)
+	}
+	if !seen {
+		// the scenario no longer produces the listed finding: either it was repaired (fine) or the schedule no longer
+		// reaches the window; not an alarm
+		t.Logf("scenario F20: the listed finding was not observed")
+	}
+}
